@@ -7,8 +7,7 @@ Request line:  `id norm <op> key=value …`
 Answer line:   `id <column | container | list>`  in the same syntax,
                `id panic:<class>` for a modelled Rust panic, `id err:fuel` if a model loop ran out of fuel.
 
-ops: normalize_repaired rsh_repaired (model only: the proposed repair, same radix)
-     normalize normalize_assign lsh lsh_add lsh_sub lsh_assign rsh rsh_add rsh_sub rsh_assign
+ops: normalize normalize_assign lsh lsh_add lsh_sub lsh_assign rsh rsh_add rsh_sub rsh_assign
      big_normalize big_normalize_add big_normalize_sub big_normalize_negate   (be=fft64* → i64 path, be=ntt120* → i128 path)
      enc_i64 enc_i128 enc_coeff_i64 dec_i64 dec_i128 dec_coeff_i64 dec_float
 -/
@@ -59,8 +58,6 @@ def handle (ts : List String) : String :=
     let idx := kvNat ts "idx"
     match op with
     | "normalize" => showOpt (normalizeCol? rb rs off a ab n)
-    | "normalize_repaired" => showCol (normalizeRepairedCol rb rs off a n)
-    | "rsh_repaired" => showCol (rshRepairedCol b k res a n)
     | "normalize_assign" => showCol (normalizeAssignCol b a n)
     | "lsh" => showCol (lshCol b k res a n)
     | "lsh_add" => showCol (lshAddCol b k res a n)
